@@ -183,17 +183,36 @@ Theorem C06_site_mint_fee : forall (k : msite) (d : denom) (price bps : N) (fund
       else
         let F := price * bps / 10000 in
         if F =? 0 then Ok []
-        else Ok match k with
-                | MsVending true => [Send A_LIQUIDITY_DAO d ((F + 7) / 8); Send A_LAUNCHPAD_DAO d (F - (F + 7) / 8)]
-                | MsVending false | MsTokenMerge =>
-                    [Send A_LIQUIDITY_DAO d ((F + 4) / 5); Send A_LAUNCHPAD_DAO d (F - (F + 4) / 5)]
-                | MsOpen dev =>
-                    let devf := (F + 1) / 2 in
-                    let R := F - devf in
-                    [Send dev d devf; Send A_LIQUIDITY_DAO d ((R + 4) / 5); Send A_LAUNCHPAD_DAO d (R - (R + 4) / 5)]
-                end
+        else match k with
+             | MsVending true => Ok [Send A_LIQUIDITY_DAO d ((F + 7) / 8); Send A_LAUNCHPAD_DAO d (F - (F + 7) / 8)]
+             | MsVending false | MsTokenMerge =>
+                 Ok [Send A_LIQUIDITY_DAO d ((F + 4) / 5); Send A_LAUNCHPAD_DAO d (F - (F + 4) / 5)]
+             | MsOpen dev true =>
+                 let devf := (F + 1) / 2 in
+                 let R := F - devf in
+                 Ok [Send dev d devf; Send A_LIQUIDITY_DAO d ((R + 4) / 5); Send A_LAUNCHPAD_DAO d (R - (R + 4) / 5)]
+             | MsOpen dev false => Err   (* the configured developer string is refused by the chain *)
+             end
   end.
 Proof. exact mint_site_schedule. Qed.
+
+(* open-edition minters, the developer AS CONFIGURED in the factory (dev), whatever the
+   chain's address rules say about the string (valid): a mint that charges a fee F > 0 and
+   is accepted sends the developer exactly ceil(F/2) -- first -- and shares the rest 1/5 :
+   4/5; it is never accepted with the developer left out *)
+Theorem C06_site_oe_developer_share : forall (dev : addr) (valid : bool) d price bps funds ms,
+  site_mint_fee (MsOpen dev valid) d price bps funds = Ok ms ->
+  price * bps / 10000 <> 0 ->
+  valid = true /\
+  ms = [Send dev d ((price * bps / 10000 + 1) / 2);
+        Send A_LIQUIDITY_DAO d ((price * bps / 10000 - (price * bps / 10000 + 1) / 2 + 4) / 5);
+        Send A_LAUNCHPAD_DAO d (price * bps / 10000 - (price * bps / 10000 + 1) / 2
+                                - (price * bps / 10000 - (price * bps / 10000 + 1) / 2 + 4) / 5)].
+Proof. exact oe_developer_share. Qed.
+
+Theorem C06_site_oe_invalid_developer_rejected : forall (dev : addr) d price bps funds,
+  price * bps / 10000 <> 0 -> site_mint_fee (MsOpen dev false) d price bps funds = Err.
+Proof. exact oe_invalid_developer_rejected. Qed.
 
 (* every site: the pool message, if any, names the contract that runs the site *)
 Theorem C06_site_pool_on_behalf_of_contract : forall (s : site) (contract : addr) funds ms,
@@ -304,7 +323,7 @@ Example C06_ex_site_world_airdrop :
   Ok [(21, NATIVE, 0); (20, NATIVE, 0); (A_BURNED, NATIVE, 50000000); (A_FAIRBURN_POOL, NATIVE, 50000000)].
 Proof. vm_compute. reflexivity. Qed.
 Example C06_ex_site_oe_mint_fee_3 :
-  site_mint_fee (MsOpen 9) 0 30 1000 [mkCoin 0 30] = Ok [Send 9 0 2; Send A_LIQUIDITY_DAO 0 1; Send A_LAUNCHPAD_DAO 0 0].
+  site_mint_fee (MsOpen 9 true) 0 30 1000 [mkCoin 0 30] = Ok [Send 9 0 2; Send A_LIQUIDITY_DAO 0 1; Send A_LAUNCHPAD_DAO 0 0].
 Proof. vm_compute. reflexivity. Qed.
 
 (* a base factory holding 400 000 000 ustars left behind by an over-payment: a payment of
@@ -352,3 +371,5 @@ Print Assumptions C06_site_creation_rejects_whatever_held.
 Print Assumptions C06_site_mint_inexact_rejected_whatever_held.
 Print Assumptions C06_ex_site_stranded_coins_underpayment.
 Print Assumptions C06_ex_site_stranded_coins_untouched.
+Print Assumptions C06_site_oe_developer_share.
+Print Assumptions C06_site_oe_invalid_developer_rejected.
